@@ -261,6 +261,12 @@ def check(ctx):
                'hep::create_result', 'hep::mc_result::value', 'hep::mc_result::variance'):
         fs += instances(p, nm)[:1]
     counters_converted_before_combined(ctx, 'R1.no_integer_products', fs)
+    from .C02 import no_float_narrowing
+    fsn = []
+    for nm in ('hep::weighted_with_variance::operator()', 'hep::weighted_equally::operator()', 'hep::chi_square_dof',
+               'hep::create_result', 'hep::mc_result::value', 'hep::mc_result::variance', 'hep::mc_result::error'):
+        fsn += list(p.find(nm))
+    no_float_narrowing(ctx, 'R6.no_float_narrowing', fsn)
 
 
 def _canon_sum(t):
